@@ -1,5 +1,4 @@
 use std::error::Error;
-use std::iter::Scan;
 use std::slice::Iter;
 
 #[cfg(feature = "polars")]
@@ -99,12 +98,8 @@ unsafe impl<T> TrustedLen for std::ops::RangeInclusive<T> where std::ops::RangeI
 {}
 unsafe impl<A: TrustedLen> TrustedLen for std::iter::StepBy<A> {}
 
-unsafe impl<I, St, F, B> TrustedLen for Scan<I, St, F>
-where
-    F: FnMut(&mut St, I::Item) -> Option<B>,
-    I: TrustedLen + Iterator<Item = B>,
-{
-}
+// `std::iter::Scan` is deliberately not `TrustedLen`: it stops as soon as its closure returns
+// `None`, so it can yield fewer items than the upper bound it inherits from the inner iterator.
 
 #[cfg(feature = "ndarray")]
 unsafe impl<A, D: tea_deps::ndarray::Dimension> TrustedLen
